@@ -121,7 +121,7 @@ func mNote(tag string) string {
 	n := zzverif.IntRange(tag+"noteLen", 0, 2)
 	b := make([]byte, n)
 	for i := range b {
-		b[i] = zzverif.OneOf(tag+"n", "ab1:.")
+		b[i] = zzverif.OneOf(tag+"n", "ab1:.\x0b\x0c\xc2\xa0") // incl. bytes that are white space to unicode.IsSpace but not blanks of the language
 	}
 	return string(b)
 }
